@@ -308,7 +308,8 @@ PickAnn == /\ Mode = "annot" /\ pick.k = "none"
                   /\ (st = "alias" => ty \in {"String", "Int32", "ListString", "Sx", "APlain", "ARed"})
                   /\ pick' = [k |-> "annot", site |-> st, ty |-> ty, a1 |-> a1, a2 |-> a2]
 PickAnnDef == /\ Mode = "anndef" /\ pick.k = "none"
-              /\ \E r \in DefRefs, a \in DefArgs : pick' = [k |-> "anndef", r |-> r, a |-> a]
+              \* used: whether the namespace that defines the annotation also applies it to a member
+              /\ \E r \in DefRefs, a \in DefArgs, u \in BOOLEAN : pick' = [k |-> "anndef", r |-> r, a |-> a, used |-> u]
 PickBadType == /\ Mode = "badtype" /\ pick.k = "none"
                /\ \E st \in TypeSites, n \in BadTypes : pick' = [k |-> "badtype", site |-> st, n |-> n]
 \* a struct that extends nsa.Base, which enumerates its subtypes and lists nsa.S: "all subtypes must be listed".  where:
@@ -358,7 +359,7 @@ Vector ==
            [mode |-> "attr", schema |-> ASchema, decl |-> ADecls[pick.di], l |-> pick.l, verdict |-> AttrFits(ASchema, ADecls[pick.di], pick.l)]
       [] pick.k = "docref" ->
            [mode |-> "docref", site |-> pick.site, tag |-> pick.tag, p |-> pick.p, verdict |-> RefFits(pick.site, pick.tag, pick.p)]
-      [] pick.k = "anndef" -> [mode |-> "anndef", r |-> pick.r, a |-> pick.a, verdict |-> AnnDefFits(pick.r, pick.a)]
+      [] pick.k = "anndef" -> [mode |-> "anndef", r |-> pick.r, a |-> pick.a, used |-> pick.used, verdict |-> AnnDefFits(pick.r, pick.a)]
       [] pick.k = "badtype" -> [mode |-> "badtype", site |-> pick.site, n |-> pick.n, verdict |-> TypeNameFits(pick.site, pick.n)]
       [] pick.k = "subtype" -> [mode |-> "subtype", c |-> pick.c, verdict |-> SubtypeFits(pick.c)]
       [] pick.k = "annot" ->
